@@ -23,6 +23,8 @@ def run(prop, tier):
     if prop in ('C09', 'C08'):
         its = []
         for it in items:
+            if it['cfg']['fmt'] == 'wind' and not it['cfg']['hdr3']:
+                continue    # the writer produces the three-word time record
             for etf in (True, False):
                 it2 = dict(it)
                 it2['cfg'] = dict(it['cfg'], with_etflag=etf)
@@ -33,8 +35,14 @@ def run(prop, tier):
         traces += res
     if prop == 'C14':
         args = []
-        sel = items if tier != 'quick' else rnd.sample(items,
-                                                       min(len(items), 40))
+        if tier != 'quick':
+            sel = items
+        else:       # a sample of every format
+            sel = []
+            for fmt in sorted(set(it['cfg']['fmt'] for it in items)):
+                grp = [it for it in items if it['cfg']['fmt'] == fmt]
+                sel += rnd.sample(grp, min(len(grp), 12 if fmt == 'uamiv'
+                                           else 5))
         for i, it in enumerate(sel):
             n = it['bytes']
             if n <= 1500 or tier != 'quick':
